@@ -192,7 +192,7 @@ func ruleCryptoConstants(c *core.Ctx, rule string) {
 				if v != nil {
 					ok := g.GuardedBy(v, func(a core.Atom) bool {
 						cmp, isCmp := a.AsCmp()
-						if !isCmp || !strings.HasSuffix(core.ExprStr(cmp.L), ".R") {
+						if !isCmp || !strings.HasSuffix(core.ExprStrAliased(fn, cmp.L), ".R") {
 							return false
 						}
 						k, isK := core.IntConst(info, cmp.R)
@@ -261,13 +261,12 @@ func ruleCryptoConstants(c *core.Ctx, rule string) {
 			core.Undecided("loop structure of slowHash not recognised")
 		}
 		o.At(fn.Site(outer, "round loop"))
+		slowHashTermination(c, o, fn, outer)
 		if outer.Cond == nil {
-			o.Unrec("the round loop of slowHash has no condition in its header: the termination test (i < 64 || last byte > i-32), the hash selection and the input construction are not located in this form")
+			o.Unrec("the round loop of slowHash has no condition in its header: the hash selection and the input construction are not located in this form")
 			return
 		}
-		src = strings.ReplaceAll(core.ExprStr(outer.Cond), " ", "")
-		o.Require(strings.Contains(src, "i<64||"), "round loop condition %s does not force 64 rounds", src)
-		o.Require(strings.Contains(src, ">i-32"), "round loop condition %s does not implement 'last byte > round - 32'", src)
+		_ = src
 		t := tripOf(info, inner)
 		o.Require(t.ok && t.n == 64, "the input is repeated %d times, want 64", t.n)
 		// hash selection
@@ -1399,13 +1398,57 @@ func rulePlaintextExemptions(c *core.Ctx) {
 		skip := localVar(fn, "skipDefaultEncrypt", 0)
 		var defs []string
 		for _, d := range core.AssignsTo(info, fn.Decl, skip) {
-			if as, ok := d.(*ast.AssignStmt); ok {
-				defs = append(defs, strings.ReplaceAll(core.ExprStr(as.Rhs[0]), " ", ""))
+			as, ok := d.(*ast.AssignStmt)
+			if !ok {
+				continue
 			}
+			rhs := as.Rhs[0]
+			// a local that holds the result of the chain test
+			if id, isID := ast.Unparen(rhs).(*ast.Ident); isID && len(as.Rhs) == 1 {
+				if obj := info.ObjectOf(id); obj != nil {
+					if ds := core.AssignsTo(info, fn.Decl, obj); len(ds) == 1 {
+						if das, isAs := ds[0].(*ast.AssignStmt); isAs && len(das.Rhs) == 1 {
+							rhs = das.Rhs[0]
+						}
+					}
+				}
+			}
+			if call, isCall := ast.Unparen(rhs).(*ast.CallExpr); isCall && core.CalleeKey(info, call) == "pdf.filterChainStartsWithCrypt" {
+				defs = append(defs, "startsWithCrypt")
+				continue
+			}
+			defs = append(defs, strings.ReplaceAll(core.ExprStr(rhs), " ", ""))
 		}
 		sort.Strings(defs)
 		want := []string{"startsWithCrypt", "w.refIsPlaintext[ref]||leadingCrypt!=nil"}
-		o.Require(strings.Join(defs, ";") == strings.Join(want, ";"), "skipDefaultEncrypt is computed from %v, want %v", defs, want)
+		if strings.Join(defs, ";") != strings.Join(want, ";") {
+			positive := false
+			for _, d := range defs {
+				if d == "true" {
+					positive = true
+				}
+			}
+			has := map[string]bool{}
+			for _, d := range defs {
+				has[d] = true
+			}
+			// a combination of the known tests only, but not the expected one
+			known := true
+			for _, d := range defs {
+				for _, a := range strings.FieldsFunc(d, func(r rune) bool { return r == '|' || r == '&' || r == '(' || r == ')' }) {
+					switch a {
+					case "startsWithCrypt", "w.refIsPlaintext[ref]", "leadingCrypt!=nil", "true", "false":
+					default:
+						known = false
+					}
+				}
+			}
+			if positive || known {
+				o.Fail("skipDefaultEncrypt is computed from %v, want %v", defs, want)
+			} else {
+				o.Unrec("skipDefaultEncrypt is computed from %v: not reduced to the exemption test and the chain test %v", defs, want)
+			}
+		}
 		// encryption is the innermost layer: applied before the filters wrap the writer
 		var firstEncode *core.V
 		for _, cv := range callVerticesSuffix(g, ".Encode") {
@@ -1427,7 +1470,17 @@ func rulePlaintextExemptions(c *core.Ctx) {
 				o.Fail("a member is formatted directly to the encrypting position writer")
 			}
 			s := core.ExprStr(call.Args[0])
-			o.Require(s == "body" || s == "streamBody", "member formatted to %s", s)
+			if s == "body" || s == "streamBody" {
+				continue
+			}
+			if pt, isPtr := t.(*types.Pointer); isPtr && core.IsNamed(pt.Elem(), "bytes", "Buffer") {
+				continue // a plain buffer, whatever it is called
+			}
+			if strings.HasSuffix(s, ".w") || strings.Contains(s, ".w.") {
+				o.Fail("member formatted to %s", s)
+				continue
+			}
+			o.Unrec("member formatted to %s: neither a plain buffer nor the writer of the object stream by name", s)
 		}
 	})
 }
@@ -1460,7 +1513,9 @@ func ruleTrailerEncrypt(c *core.Ctx) {
 			return
 		}
 		o.At(fn.Site(cs[0].Call, "key derivation"))
-		o.Require(strings.ReplaceAll(core.ExprStr(cs[0].Call.Args[0]), " ", "") == "ID[0]", "the key derivation is given %s, want ID[0]", core.ExprStr(cs[0].Call.Args[0]))
+		if got := strings.ReplaceAll(core.ExprStr(cs[0].Call.Args[0]), " ", ""); got != "ID[0]" && resolveText(g, cs[0].V, cs[0].Call.Args[0], 3) != "ID[0]" {
+			o.Fail("the key derivation is given %s, want ID[0]", core.ExprStr(cs[0].Call.Args[0]))
+		}
 		for _, s := range keys["ID"] {
 			if as, ok := s.(*ast.AssignStmt); ok {
 				o.At(fn.Site(as, "trailer /ID"))
@@ -1807,4 +1862,137 @@ func explainedBy(got, want []string) bool {
 		return false
 	}
 	return true
+}
+
+// slowHashTermination decides the termination test of the round loop of
+// Algorithm 2.B by tabulation: with n the number of rounds completed and
+// last the last byte of E, the loop goes on exactly when
+// n < 64 || last > n-32.  Two forms are understood: the test in the loop
+// header (evaluated with the counter equal to n), and a header without
+// condition whose body ends in "if B { break }" (evaluated before the post
+// statement, with the counter equal to n-1).
+func slowHashTermination(c *core.Ctx, o *core.Ob, fn *core.Func, outer *ast.ForStmt) {
+	info := fn.Info()
+	// the counter: initialised to 0 in the header, incremented in the post statement only
+	var ctr types.Object
+	if inc, ok := outer.Post.(*ast.IncDecStmt); ok && inc.Tok == token.INC {
+		ctr = core.ObjOf(info, inc.X)
+	}
+	if as, ok := outer.Init.(*ast.AssignStmt); !ok || ctr == nil || len(as.Lhs) != 1 || len(as.Rhs) != 1 || core.ObjOf(info, as.Lhs[0]) != ctr {
+		ctr = nil
+	} else if k, isK := core.IntConst(info, as.Rhs[0]); !isK || k != 0 {
+		ctr = nil
+	}
+	if ctr == nil {
+		o.Unrec("the round loop of slowHash does not count its rounds in the header (i := 0; ...; i++): the termination test is not located in this form")
+		return
+	}
+	for _, d := range core.AssignsTo(info, outer.Body, ctr) {
+		o.Unrec("%s: the round counter is also changed in the loop body: the termination test is not followed in this form", c.Prog.Pos(d.Pos()))
+		return
+	}
+	// breaks that leave the round loop
+	var breaks []*ast.BranchStmt
+	inside := map[string]bool{} // labels in the loop body (the ends of inlined helpers)
+	ast.Inspect(outer.Body, func(m ast.Node) bool {
+		if ls, ok := m.(*ast.LabeledStmt); ok {
+			inside[ls.Label.Name] = true
+		}
+		return true
+	})
+	var walk func(n ast.Node, inner bool)
+	walk = func(n ast.Node, inner bool) {
+		ast.Inspect(n, func(m ast.Node) bool {
+			switch x := m.(type) {
+			case *ast.FuncLit:
+				return false
+			case *ast.ForStmt, *ast.RangeStmt, *ast.SwitchStmt, *ast.TypeSwitchStmt, *ast.SelectStmt:
+				if m != n {
+					walk(m, true)
+					return false
+				}
+			case *ast.BranchStmt:
+				if x.Tok == token.BREAK && (x.Label != nil || !inner) || x.Tok == token.GOTO && !(x.Label != nil && inside[x.Label.Name]) {
+					breaks = append(breaks, x)
+				}
+			case *ast.ReturnStmt:
+				breaks = append(breaks, &ast.BranchStmt{TokPos: x.Pos(), Tok: token.RETURN})
+			}
+			return true
+		})
+	}
+	walk(outer.Body, false)
+	var test ast.Expr
+	offset := int64(0) // counter value at the test = n - offset
+	negate := false
+	switch {
+	case outer.Cond != nil && len(breaks) == 0:
+		test = outer.Cond
+	case outer.Cond == nil && len(breaks) == 1 && len(outer.Body.List) > 0:
+		is, ok := outer.Body.List[len(outer.Body.List)-1].(*ast.IfStmt)
+		if ok && is.Init == nil && is.Else == nil && len(is.Body.List) == 1 && is.Body.List[0] == ast.Stmt(breaks[0]) && breaks[0].Tok == token.BREAK && breaks[0].Label == nil {
+			test, offset, negate = is.Cond, 1, true
+		}
+	}
+	if test == nil {
+		o.Unrec("the round loop of slowHash is left neither by its header condition alone nor by a single 'if ... { break }' at the end of its body: the termination test is not located in this form")
+		return
+	}
+	// leaves: the counter and one other quantity (the last byte of E)
+	ctrKey, lastKey := "", ""
+	nLeaves := 0
+	dec, _ := c.Prog.Tabulate(fn, test, nil, map[string][]int64{"": {0}}, func(env map[string]int64, n int64, b bool) {
+		for k := range env {
+			nLeaves++
+			if strings.HasPrefix(k, ctr.Name()+"@") {
+				ctrKey = k
+			} else {
+				lastKey = k
+			}
+		}
+	})
+	if !dec || nLeaves != 2 || ctrKey == "" || lastKey == "" {
+		o.Unrec("%s: the termination test %s does not depend on exactly the round counter and one further quantity: not tabulated", c.Prog.Pos(test.Pos()), c.Prog.Src(test))
+		return
+	}
+	// an indexed byte must be the last one of its slice
+	ast.Inspect(test, func(m ast.Node) bool {
+		ix, ok := m.(*ast.IndexExpr)
+		if !ok {
+			return true
+		}
+		want := "len(" + core.ExprStr(ix.X) + ")-1"
+		if got := strings.ReplaceAll(core.ExprStr(ix.Index), " ", ""); got != want {
+			if _, isK := core.IntConst(info, ix.Index); isK {
+				o.FailAt(fn.Site(ix, ""), "%s: the termination test looks at %s, the standard says the last byte of E", c.Prog.Pos(ix.Pos()), c.Prog.Src(ix))
+			} else {
+				o.Unrec("%s: which byte %s is was not determined", c.Prog.Pos(ix.Pos()), c.Prog.Src(ix))
+			}
+		}
+		return false
+	})
+	var ns, ls []int64
+	for n := offset; n <= 330; n++ {
+		ns = append(ns, n-offset)
+	}
+	for l := int64(0); l < 256; l++ {
+		ls = append(ls, l)
+	}
+	bad := ""
+	dec, why := c.Prog.Tabulate(fn, test, nil, map[string][]int64{ctrKey: ns, lastKey: ls}, func(env map[string]int64, _ int64, b bool) {
+		n, last := env[ctrKey]+offset, env[lastKey]
+		goesOn := b != negate
+		if want := n < 64 || last > n-32; goesOn != want && bad == "" {
+			verb := map[bool]string{true: "goes on", false: "stops"}
+			bad = fmt.Sprintf("after %d rounds with last byte %d the loop %s, the standard says it %s", n, last, verb[goesOn], verb[want])
+		}
+	})
+	o.Count(len(ns) * len(ls))
+	if !dec {
+		o.Unrec("%s: the termination test %s was not tabulated: %s", c.Prog.Pos(test.Pos()), c.Prog.Src(test), why)
+		return
+	}
+	if bad != "" {
+		o.FailAt(fn.Site(test, ""), "termination test %s: %s (continue while n < 64 || last byte > n-32)", c.Prog.Src(test), bad)
+	}
 }
